@@ -177,6 +177,10 @@ let histories (c : cfg) : (int list * string) list =
       ([2], "R,V,A1,D2,K,V,D1,K,V");     (* edits while stopped at a breakpoint *)
       ([1], "L,D0,R,V,K,V,K,V");         (* add-all before the run: digit stays, alpha removed again *)
       ([2], "R,K,V,V,K,V") ]             (* continue issued before the pending event is received: nothing may be lost *)
+  else if c.id = "ws" then  (* ASCII_DIGIT0 WHITESPACE1 item2 list3 num4: input "1 ,2" *)
+    [ ([1], "R,V,K,V,K,V,K,V,K,V,K,V");   (* implicit skipping enters WHITESPACE: every attempt is a visit *)
+      ([1;2], "R,V,K,V,K,V,K,V,K,V,K,V,K,V");
+      ([0;4], "R,V,K,V,K,V,K,V,K,V") ]
   else if c.id = "builtin" then  (* ANY0 ASCII_DIGIT1 EOI2 NEWLINE3 SOI4 line5 other6 word7 *)
     [ ([2;7], "R,V,K,V,K,V,K,V");        (* word and EOI: word@0 word@2 EOI@4 Eof *)
       ([0;3;4], "R,V,K,V,K,V,K,V");      (* built-ins alone: SOI@0 ANY@2 NEWLINE@3 Eof *)
